@@ -137,6 +137,16 @@ def singleDataStats (s : Rv.St) (before : Option Rv.St) : Option Stats := dataSt
 def fiveInstrStats (p : Pipe.PSt) : Option Stats := instrStats p.st.imem (p.l0.map (·.addr))
 def singleInstrStats (s : Rv.St) (before : Option Rv.St) : Option Stats := instrStats s.imem (singleLatch before)
 
+/-! ### storing one instruction -/
+
+/-- `instruction_memory.write_instruction(4k, instr)` for `k` at most the program length: instruction `k` is replaced, or the
+    instruction is appended.  Nothing else changes — in particular an instruction cache is NOT invalidated (as in the
+    code: `InstructionMemoryCacheSystem.write_instruction` only forwards to the lower memory). -/
+def writeInstr (im : Rv.IMem) (k : Nat) (i : Rv.Instr) : Option Rv.IMem :=
+  if k < im.prog.length then some { im with prog := im.prog.set k i }
+  else if k = im.prog.length then some { im with prog := im.prog ++ [i] }
+  else none          -- a hole in front of the instruction: not modelled (the program is a list)
+
 /-! ### performance-metrics text -/
 
 /-- The counter lines of `get_performance_metrics_str()` = `str(RiscvPerformanceMetrics)`, in order.  The wall-clock lines
